@@ -274,11 +274,11 @@ Proof. intros H x Hx. exact (find_none f l H x Hx). Qed.
 (* the progress theorem, at a state *)
 Lemma fprogress_state fs : Inv (fb fs) -> P1 (fb fs) -> P2 (fb fs) -> Wv (fb fs) ->
   returned (fb fs) = None ->
-  exists fe fs', is_fault fe = false /\ fstep g c ext fs fe = Some fs'.
+  exists e fs', is_fault (Ev e) = false /\ fstep g c ext fs (Ev e) = Some fs'.
 Proof.
   intros I H1 H2 Hw Hr.
   destruct (tainted g fs) eqn:Ht.
-  { exists (Ev (Ret false)). eexists. split; [reflexivity|]. now apply fret_err_enabled. }
+  { exists (Ret false). eexists. split; [reflexivity|]. now apply fret_err_enabled. }
   assert (Hel : f_cancelled fs = false /\ f_aborted fs = false /\ any_dead g (fb fs) = false).
   { unfold tainted in Ht. apply orb_false_iff in Ht as [Ht H3]. apply orb_false_iff in Ht as [Hc Ha]. auto. }
   destruct Hel as [Hc [Ha Hnd]].
@@ -293,7 +293,7 @@ Proof.
   destruct (find (fun n => active_ph (ph st n)) (seq 0 (g_n g))) as [n|] eqn:Ef.
   { apply find_some in Ef as [Hin Hact].
     destruct (active_enabled st n I H1 H2 nomount Hr Hact) as [e [st' [Hpl [Hnode Hs]]]].
-    exists (Ev e). exists (with_base fs st'). split.
+    exists e. exists (with_base fs st'). split.
     - destruct Hpl as [Hcf _]. destruct e; try reflexivity. exfalso. eapply Hcf. reflexivity.
     - apply fstep_base; [exact Hr | exact Ha | exact Hpl | | | exact Hs].
       + intros m Hm. apply Hnodead.
@@ -311,7 +311,7 @@ Proof.
   { apply find_some in Ew as [Hin Hwn]. apply andb_true_iff in Hwn as [Hwn Hvn]. apply negb_true_iff in Hvn.
     assert (Hp : ph st n = Waiting) by (destruct (ph st n); simpl in Hwn; congruence).
     destruct (waiting_enabled st I Hr Q (S (rank n)) n (Nat.lt_succ_diag_r _) Hp Hvn) as [e [st' [m [Hpl [Hnode [Hvm Hs]]]]]].
-    exists (Ev e). exists (with_base fs st'). split.
+    exists e. exists (with_base fs st'). split.
     - destruct Hpl as [Hcf _]. destruct e; try reflexivity. exfalso. eapply Hcf. reflexivity.
     - apply fstep_base; [exact Hr | exact Ha | exact Hpl | | | exact Hs].
       + intros m' Hm. apply Hnodead.
@@ -326,7 +326,7 @@ Proof.
   - (* ExtendedCopyGraph: the virtual root waits *)
     pose proof (Hw Hext) as Hwv. fold st in Hwv.
     destruct (forallb (fun r => is_done (ph st r)) (succ' g (c_root c))) eqn:Ed.
-    + exists (Ev (Ret true)). eexists. split; [reflexivity|].
+    + exists (Ret true). eexists. split; [reflexivity|].
       unfold fstep. fold st. rewrite Hr, Ht. cbn [negb andb]. unfold ret_ok_guard. rewrite Hext, Hwv, Ed. cbn [is_waiting andb].
       assert (Eall : forallb (fun n => Nat.eqb n (c_root c) || is_idle_or_done (ph st n)) (seq 0 (g_n g)) = true).
       { apply forallb_forall. intros n _. destruct (Nat.eqb n (c_root c)) eqn:En; [reflexivity|]. cbn [orb].
@@ -340,7 +340,7 @@ Proof.
       { unfold dispatched. apply orb_true_iff. right. apply existsb_exists. exists (c_root c). split.
         - apply in_seq. lia.
         - rewrite Hwv. cbn [is_waiting andb]. now apply memb_In. }
-      exists (Ev (ExB x)). exists (with_base fs st'). split; [reflexivity|].
+      exists (ExB x). exists (with_base fs st'). split; [reflexivity|].
       apply fstep_base; [exact Hr | exact Ha | split; intros; discriminate | | | exact Hs].
       * intros m _. apply Hnodead.
       * unfold on_virtual. cbn [ev_node]. exact Hvx.
@@ -350,10 +350,10 @@ Proof.
     destruct (Hreal (c_root c) (Hv0 _)) as [Hi|Hd].
     + destruct (exb_enabled st (c_root c) Hr Q Hi root_in) as [st' Hs].
       { unfold dispatched, is_root. rewrite Nat.eqb_refl. reflexivity. }
-      exists (Ev (ExB (c_root c))). exists (with_base fs st'). split; [reflexivity|].
+      exists (ExB (c_root c)). exists (with_base fs st'). split; [reflexivity|].
       apply fstep_base; [exact Hr | exact Ha | split; intros; discriminate | intros m _; apply Hnodead | apply Hov | exact Hs].
     + destruct (forallb (fun r => is_done (ph st r)) (c_xroots c)) eqn:Ex.
-      * exists (Ev (Ret true)). eexists. split; [reflexivity|].
+      * exists (Ret true). eexists. split; [reflexivity|].
         unfold fstep. fold st. rewrite Hr, Ht. cbn [negb andb]. unfold ret_ok_guard. rewrite Hext, Hd, Ex. cbn [is_done andb].
         assert (Eall : forallb (fun n => is_idle_or_done (ph st n)) (seq 0 (g_n g)) = true).
         { apply forallb_forall. intros n _. destruct (Hreal n (Hv0 n)) as [Hi|Hd']; [rewrite Hi | rewrite Hd']; reflexivity. }
@@ -362,14 +362,14 @@ Proof.
         destruct (Hreal x (Hv0 x)) as [Hi|Hd']; [|rewrite Hd' in Hxd; discriminate].
         destruct (exb_enabled st x Hr Q Hi (xroots_in x Hx)) as [st' Hs].
         { unfold dispatched. apply orb_true_iff. left. apply orb_true_iff. right. now apply memb_In. }
-        exists (Ev (ExB x)). exists (with_base fs st'). split; [reflexivity|].
+        exists (ExB x). exists (with_base fs st'). split; [reflexivity|].
         apply fstep_base; [exact Hr | exact Ha | split; intros; discriminate | intros m _; apply Hnodead | apply Hov | exact Hs].
 Qed.
 
 (* ... at every state reached by an accepted trace *)
 Theorem fprogress tr fs : ext_ok g c ext d0 ->
   faccepts g c ext d0 tr = Some fs -> returned (fb fs) = None ->
-  exists fe fs', is_fault fe = false /\ fstep g c ext fs fe = Some fs'.
+  exists e fs', is_fault (Ev e) = false /\ fstep g c ext fs (Ev e) = Some fs'.
 Proof.
   intros Hx Ha Hr. unfold faccepts in Ha.
   pose proof (frun_inv g c ext d0 tr _ _ (finit_inv g c ext d0 Hx) Ha) as I.
